@@ -32,6 +32,18 @@ def o_wind_decomp(case):
             if not (abs(float(np.asarray(gu)[k]) - eu) <= 1e-12 * si and abs(float(np.asarray(gv)[k]) - ev) <= 1e-12 * si):
                 return fail("C08/dtype", "wind decomposition of a %s series of directions differs from the element-wise one at %d degrees" % (arr.dtype, int(dk)),
                             None, [float(eu), float(ev)], [float(np.asarray(gu)[k]), float(np.asarray(gv)[k])], 1e-12)
+    # a direction / speed series held in ONE array that is refilled in place between calls; the arguments themselves are left untouched
+    darr, sarr = dirs.astype(float), np.full(len(dirs), float(si))
+    compute_wind_fields(sarr, darr)
+    darr[...] = (darr * 1.5 + 11.0) % 360.0
+    sarr *= 1.25
+    keep = (sarr.copy(), darr.copy())
+    g1 = compute_wind_fields(sarr, darr)
+    g2 = compute_wind_fields(sarr.copy(), darr.copy())
+    if not (np.array_equal(sarr, keep[0]) and np.array_equal(darr, keep[1])):
+        return fail("C08/mutates-input", "compute_wind_fields modifies its argument arrays", None, "unchanged", "changed", 0)
+    if not (np.array_equal(np.asarray(g1[0]), np.asarray(g2[0])) and np.array_equal(np.asarray(g1[1]), np.asarray(g2[1]))):
+        return fail("C08/inplace", "the decomposition of a series whose array was refilled in place is not that of its current values", None, "equal", "differs", 0)
     for d, (eu, ev) in {0.0: (0, -1), 90.0: (-1, 0), 180.0: (0, 1), 270.0: (1, 0)}.items():
         uu, vv = compute_wind_fields(s, d)
         if not (abs(uu - eu * s) <= 1e-12 * abs(s) + 1e-15 and abs(vv - ev * s) <= 1e-12 * abs(s) + 1e-15):
